@@ -131,6 +131,21 @@ def gen_hist(rng, idx):
         ev.append([rng.choice(["backward", "clear", "del"]), res])
         if ev[-1][0] == "del":
             tensors.remove(res)
+    if rng.random() < 0.2:
+        # out= an ndarray view whose buffer also backs an OPERAND of the same call (mg.exp(buf[2:], out=buf[:2])): the buffer is locked once per
+        # role and must be released as often when the graph ends
+        owner = arrays[1]
+        vo, vi = "a%d" % n_a, "a%d" % (n_a + 1)
+        n_a += 2
+        ev.append(["npview", owner, vo, "head"])
+        ev.append(["npview", owner, vi, "tail"])
+        arrays.extend([vo, vi])
+        ev.append(["out_arr", vi, vo, rng.choice(["exp", "negative", "add"])])
+        res = "t%d" % (len(ev) - 1)
+        tensors.append(res)
+        ev.append([rng.choice(["backward", "clear", "del"]), res])
+        if ev[-1][0] == "del":
+            tensors.remove(res)
     for step in range(rng.randint(4, 16)):
         k = rng.random()
         tn = "t%d" % len(ev)
